@@ -8,7 +8,7 @@ from .. import world as W
 from ..alias import root
 from ..interp import Obj, Unsupported
 from ..report import AnalysisError, Finding
-from ..term import Sym
+from ..term import Op, Sym
 
 EXEMPT_METHODS = {"requires_grad_": "changes autograd metadata only, values untouched"}
 OPAQUE_OK = {
@@ -95,6 +95,18 @@ def check(ctx, run):
         ch = prog.lookup_method(W.HEDGER, "compute_hedge")
         run.functions.add(ch.qualname)
         examine("compute_hedge", interp.explore(ch, [W.option()], {}, self_obj=h))
+    # the vectorised branch with every single built-in feature as the only model input: what the model is handed must be fresh storage
+    seen_single = set()
+    for label, mode, ts, make in E.feature_runs(ctx):
+        if mode != "batch" or label in seen_single or label.startswith(("PrevHedge", "Empty")):
+            continue
+        seen_single.add(label)
+        h = W.hedger(prog, [make()])
+        ch = prog.lookup_method(W.HEDGER, "compute_hedge")
+        try:
+            examine(f"compute_hedge[{label}]", interp.explore(ch, [W.option()], {}, self_obj=h))
+        except Unsupported as ex:
+            raise AnalysisError(f"compute_hedge with the single input {label}: {ex}")
     ag = "pfhedge.autogreek."
     for g in ("delta", "gamma", "vega", "theta"):
         fi = prog.functions.get(ag + g)
@@ -119,6 +131,14 @@ def check(ctx, run):
                 role = callee.split(".")[-1]
                 if role in OPAQUE_OK:
                     ok, reason = True, OPAQUE_OK[role]
+                    if role == "model" and len(verdict) > 2:
+                        # a user model may hand back its input (torch.nn.Identity, a slice of it): what it is given must be fresh storage,
+                        # otherwise the store goes through the model into the simulated buffers
+                        cm_ = {}
+                        for a_ in verdict[2].args[1:]:
+                            ra = root(a_, cm_) if isinstance(a_, (Op, Sym)) else ("fresh", "python value")
+                            if ra[0] == "alias":
+                                ok, reason = False, f"the model is given a view of {ra[1]}; a pass-through model returns it and the store writes into it"
                 else:
                     reason = f"result of user callable {callee} may alias simulated buffers"
             elif kind == "alias":
